@@ -25,6 +25,7 @@ func init() {
 	register("C09", C09, C09Replay)
 	register("C10", C10, C10Replay)
 	register("C11", C11, C11Replay)
+	register("C12", C12, C12Replay)
 	register("C13", C13, C13Replay)
 	register("C14", C14, C14Replay)
 	register("C15", C15, C15Replay)
